@@ -860,6 +860,9 @@ func genArrivals(r *rng.R, op opDef, dev uint32, focus string) ([][]byte, string
 				if f.off == 4 { // keep the serial number
 					pos = 8 + r.Intn(24)
 				}
+				if r.Chance(1, 4) { // any byte of the payload, whether the reply struct (as it is declared today) names it or not
+					pos = 8 + r.Intn(56)
+				}
 				b[pos] = rng.Pick(r, r.U8(), 0x00, 0x01, 0x02, 0x24, 0x25, 0x59, 0x60, 0x99, 0xff, 0x12, 0x13, 0x29, 0x30, 0x31, 0x32)
 			}
 		}
